@@ -38,7 +38,7 @@ ASSUMPTIONS = [
     "'handler reached' observed by wrapping every leaf RequestType.func of the live tree",
 ]
 
-FILE_STATES = ["live", "file_deleted", "folder_deleted"]
+FILE_STATES = ["live", "file_deleted", "folder_deleted", "folder_restored_file_deleted"]
 
 
 RT_APP = "dos-bot"
@@ -77,7 +77,7 @@ def mask_vs_exec(ai: int, ns: int, svc_state: int, app_state: int, nic_en: bool,
     AS = list(ApplicationOperatingState)
     assume(
         all_of(
-            rng(ai, 0, n_actions - 1), rng(ns, 0, 3), rng(svc_state, 0, len(SS) - 1), rng(app_state, 0, len(AS) - 1), rng(fstate, 0, 2)
+            rng(ai, 0, n_actions - 1), rng(ns, 0, 3), rng(svc_state, 0, len(SS) - 1), rng(app_state, 0, len(AS) - 1), rng(fstate, 0, len(FILE_STATES) - 1)
         )
     )
     if couple:
@@ -98,6 +98,19 @@ def mask_vs_exec(ai: int, ns: int, svc_state: int, app_state: int, nic_en: bool,
             node.file_system.delete_file(folder_name="docs", file_name="a.txt")
         elif fs == "folder_deleted":
             node.file_system.delete_folder(folder_name="docs")
+        elif fs == "folder_restored_file_deleted":
+            # history: the folder was deleted and restored through the file-system requests (its routes are re-registered
+            # by the restore), the restore has completed, and afterwards the file was deleted
+            node.file_system.delete_folder(folder_name="docs")
+            r = sim.apply_request(["network", "node", "client_1", "file_system", "restore", "folder", "docs"])
+            if r.status != "success":
+                fail(f"restoring the deleted folder answered {r.status}")
+            for t in range(1, 6):
+                sim.pre_timestep(t)
+                sim.apply_timestep(t)
+            if node.file_system.get_folder("docs") is None or node.file_system.get_file(folder_name="docs", file_name="a.txt") is None:
+                fail("harness: the folder restore did not bring docs/a.txt back")
+            node.file_system.delete_file(folder_name="docs", file_name="a.txt")
         _set_node_state(node, st)
     sv = pick(SS, svc_state)
     av = pick(AS, app_state)
@@ -143,9 +156,10 @@ HARNESSES = {
         "quick": [{"fixed": {"kind": "switched", "ns": n, "couple": True}, "timeout": 280} for n in range(4)]
         + [{"fixed": {"kind": "routed", "ns": 0, "couple": True, "fstate": 0, "via_env": True}, "timeout": 280}]
         + [{"fixed": {"kind": "firewalled", "ns": 0, "svc_state": 0, "app_state": 0, "fstate": 0}, "timeout": 280}]
+        + [{"fixed": {"kind": "switched", "ns": 0, "svc_state": 0, "app_state": 0, "fstate": 3}, "timeout": 280}]
         + [{"fixed": {"kind": "switched", "ns": 0, "couple": True, "fstate": 0, "order": o, "svc_state": 0}, "timeout": 280} for o in ("desc", "shuffled")]
         + [{"fixed": {"kind": "switched", "ns": 0, "fstate": 0, "svc_state": 0, "rt_install": True}, "timeout": 280}],
-        "thorough": [{"fixed": {"kind": k, "ns": n, "fstate": f}, "timeout": 1500} for k in ("switched", "routed") for n in range(4) for f in range(3)]
+        "thorough": [{"fixed": {"kind": k, "ns": n, "fstate": f}, "timeout": 1500} for k in ("switched", "routed") for n in range(4) for f in range(4)]
         + [{"fixed": {"kind": "routed", "ns": n, "fstate": 0, "order": o}, "timeout": 1500} for n in (0, 2) for o in ("desc", "shuffled")]
         + [{"fixed": {"kind": "firewalled", "ns": n, "fstate": 0, "couple": True}, "timeout": 1500} for n in range(4)],
         "cover": ["reached", "turned_away"],
